@@ -23,7 +23,7 @@ func init() {
 		Technique: "table agreement (funcProtos map literal, buildPrimitive switch arms, documentation index), per-arm argument index/type census against the prototype table, error-result discipline of fallible constructors, guard/dominance analysis of the Parse -> prototypeCheck -> Build gate, constant-bound index/slice checker with length-guard inference on the functions reachable from condition.Build, scanner progress and slice-bound path rules",
 		Meta: core.Meta{
 			Level:       "other",
-			Explanation: "Decides: (a) the keys of parser.funcProtos equal the case labels of condition.buildPrimitive, every primitive listed in docs/en_us/condition (index and per-primitive headings) is in funcProtos with the documented number and types (String/Boolean) of parameters; (b) in each arm of buildPrimitive every constant index into node.Args is below the arity declared in funcProtos, .ToBool() is applied only to arguments declared BOOL and .Value only to arguments declared STRING; the fall-through arm returns an error; (c) for every call in an arm whose last result is an error (NewIPMatcher, NewIpInMatcher, NewHashMatcher, NewHostMatcher, regexp.Compile, NewTimeMatcher, NewPeriodicTimeMatcher, …) the error is tested, a non-nil error is returned under err != nil and every success return of the arm is reached only under err == nil; (d) the gate: Build calls build only when parser.Parse returned no error and no unresolved identifier; parser.Parse returns a tree only when Parser.Error() is nil; Parser.Error is nil only when no error was recorded; Parser.Parse returns before the prototype check only when errors were recorded; primitiveCheck descends into Binary/Unary/Paren nodes, runs prototypeCheck on every CallExpr and records its error on every path; Walk visits X and Y; prototypeCheck returns nil only for a known name with equal argument count and has the per-argument kind test in its loop; scanner and lexer errors are routed to the same error list (Init wires Parser.addError into both, Lex's default arm reports and stops); (e) Scanner.Scan consumes input on every path (termination of the token loop); (f) every index or slice with a constant bound into a string or slice, in all functions statically reachable from Build (parser driver, scanner, argument parsers such as ParseTimeOfDay, hash-section parser), is dominated by a length test that implies it, and scanner slices of the form src[a : offset-k] are preceded by an advancing next() on every path; (g) the hash bucket table is allocated with the same constant that bounds parsed bucket numbers and the hash modulus. Not covered: non-constant index arithmetic inside the generated yacc driver and the scanner beyond clause (f) (no general bounds prover, DESIGN 2.8); panics inside the standard library (regexp, fmt.Sscanf, time.Parse); stack depth on deeply nested input.",
+			Explanation: "Decides: (a) the keys of parser.funcProtos equal the case labels of condition.buildPrimitive, every primitive listed in docs/en_us/condition (index and per-primitive headings) is in funcProtos with the documented number and types (String/Boolean) of parameters; (b) in each arm of buildPrimitive every constant index into node.Args is below the arity declared in funcProtos, .ToBool() is applied only to arguments declared BOOL and .Value only to arguments declared STRING (a private helper or function literal that is handed the node and a constant index is followed with the index bound at the call site); the fall-through arm returns an error; (c) for every call in an arm whose last result is an error (NewIPMatcher, NewIpInMatcher, NewHashMatcher, NewHostMatcher, regexp.Compile, NewTimeMatcher, NewPeriodicTimeMatcher, …) the error is tested, a non-nil error is returned under err != nil and every success return of the arm is reached only under err == nil; (d) the gate: Build calls build only when parser.Parse returned no error and no unresolved identifier; parser.Parse returns a tree only when Parser.Error() is nil; Parser.Error is nil only when no error was recorded; Parser.Parse returns before the prototype check only when errors were recorded; primitiveCheck descends into Binary/Unary/Paren nodes, runs prototypeCheck on every CallExpr and records its error on every path; Walk visits X and Y; prototypeCheck returns nil only for a known name with equal argument count and has the per-argument kind test in its loop; scanner and lexer errors are routed to the same error list (Init wires Parser.addError into both, Lex's default arm reports and stops); (e) Scanner.Scan consumes input on every path (termination of the token loop); (f) every index or slice with a constant bound into a string or slice, in all functions statically reachable from Build (parser driver, scanner, argument parsers such as ParseTimeOfDay, hash-section parser), is dominated by a length test that implies it, and scanner slices of the form src[a : offset-k] are preceded by an advancing next() on every path; (g) the hash bucket table is allocated with the same constant that bounds parsed bucket numbers and the hash modulus; every bucket number parsed in parserHashSectionConf (strconv.Atoi, also inside a private helper) crosses, on every path to a success return, a branch edge that establishes 0 <= number and number < HashMatcherBucketSize (facts are closed under negation, &&/|| assembled booleans and named booleans, operands may be mirrored). Error tests and length tests are read modulo spelling (inverted branches, named booleans, conjunctions); the call that hands the parsed tree to the builder in Build is identified by the value it receives. Not covered: non-constant index arithmetic inside the generated yacc driver and the scanner beyond clause (f) (no general bounds prover, DESIGN 2.8); panics inside the standard library (regexp, fmt.Sscanf, time.Parse); stack depth on deeply nested input.",
 			RuleText:    "obligations = 4 table relations, one per buildPrimitive arm, one per gate link, one per (function, indexed operand) pair with a constant bound, one per scanner slice with a subtracted bound, the hash-size agreements; keyed by primitive name / function and operand",
 			Assumptions: []string{"the yacc driver in y.go is goyacc's (checked under C16 by regeneration)", "standard-library parsers return errors instead of panicking"},
 		},
@@ -43,6 +43,11 @@ func init() {
 			{Name: "comment-loop-ignores-eof", File: "bfe_basic/condition/parser/scanner.go", Old: "	for s.ch != '\\n' && s.ch >= 0 {", New: "	for s.ch != '\\n' {", Expect: "scan-loops|bfe_basic/condition/parser.Scanner.scanComment"},
 			{Name: "whitespace-loop-no-advance", File: "bfe_basic/condition/parser/scanner.go", Old: "	for s.ch == ' ' || s.ch == '\\t' || s.ch == '\\r' || s.ch == '\\n' {\n		s.next()\n	}", New: "	for s.ch == ' ' || s.ch == '\\t' || s.ch == '\\r' || s.ch == '\\n' {\n		if s.ch != '\\r' {\n			s.next()\n		}\n	}", Expect: "scan-loops|bfe_basic/condition/parser.Scanner.skipWhitespace"},
 			{Name: "parsetime-unchecked-slice", File: "bfe_util/time.go", Old: "	tm, err := time.Parse(\"20060102150405\", prefixTimeStr)", New: "	tm, err := time.Parse(\"20060102150405\", timeStr[:14])", Expect: "const-index|bfe_util.ParseTime"},
+			{Name: "silent-arm-helper-takes-node-and-index", File: "bfe_basic/condition/build.go", Old: "\tcase \"req_path_regmatch\":\n\t\treg, err := regexp.Compile(node.Args[0].Value)\n\t\tif err != nil {\n\t\t\treturn nil, fmt.Errorf(\"compile regexp err %s\", err)\n\t\t}\n", New: "\tcase \"req_path_regmatch\":\n\t\treg, err := func(call *parser.CallExpr, i int) (*regexp.Regexp, error) {\n\t\t\tcompiled, cerr := regexp.Compile(call.Args[i].Value)\n\t\t\tif cerr == nil {\n\t\t\t\treturn compiled, nil\n\t\t\t}\n\t\t\treturn nil, fmt.Errorf(\"compile regexp err %s\", cerr)\n\t\t}(node, 0)\n\t\tfailed := err != nil\n\t\tif failed {\n\t\t\treturn nil, err\n\t\t}\n", Silent: true},
+			{Name: "silent-prototypecheck-named-booleans", File: "bfe_basic/condition/parser/semant.go", Old: "\tif len(argsType) != len(expr.Args) {\n\t\treturn fmt.Errorf(\"primitive args len error, expect %v, got %v\", len(argsType), len(expr.Args))\n\t}\n\n\tfor i, argType := range argsType {\n\t\tif argType != expr.Args[i].Kind {\n", New: "\tsameArity := len(expr.Args) == len(argsType)\n\tif !sameArity {\n\t\treturn fmt.Errorf(\"primitive args len error, expect %v, got %v\", len(argsType), len(expr.Args))\n\t}\n\n\tfor i, argType := range argsType {\n\t\tif i >= len(expr.Args) {\n\t\t\tbreak\n\t\t}\n\t\tif kindOK := expr.Args[i].Kind == argType; !kindOK {\n", Silent: true},
+			{Name: "silent-hash-bound-test-respelled", File: "bfe_basic/condition/primitive.go", Old: "\t\tif number < 0 || number >= HashMatcherBucketSize {\n\t\t\treturn 0, 0, fmt.Errorf(\"hash value check section %s number %s overlimit\",\n\t\t\t\tsection, numberStr)\n\t\t}\n", New: "\t\tinRange := 0 <= number && HashMatcherBucketSize > number\n\t\tif !inRange {\n\t\t\treturn 0, 0, fmt.Errorf(\"hash value check section %s number %s overlimit\",\n\t\t\t\tsection, numberStr)\n\t\t}\n", Silent: true},
+			{Name: "silent-build-gate-inverted", File: "bfe_basic/condition/build.go", Old: "\tif err != nil {\n\t\treturn nil, err\n\t}\n\n\tif len(identList) != 0 {\n\t\treturn nil, fmt.Errorf(\"found unresolved variable %s %d\", identList[0].Name, identList[0].Pos())\n\t}\n\n\treturn build(node)\n", New: "\tif err == nil {\n\t\tresolved := len(identList) == 0\n\t\tif resolved {\n\t\t\treturn build(node)\n\t\t}\n\t\treturn nil, fmt.Errorf(\"found unresolved variable %s %d\", identList[0].Name, identList[0].Pos())\n\t}\n\treturn nil, err\n", Silent: true},
+			{Name: "silent-arm-debug-print", File: "bfe_basic/condition/build.go", Old: "\tcase \"req_vip_in\":\n\t\tmatcher, err := NewIpInMatcher(node.Args[0].Value)\n", New: "\tcase \"req_vip_in\":\n\t\tfmt.Println(\"building primitive\", node.Fun.Name)\n\t\tmatcher, err := NewIpInMatcher(node.Args[0].Value)\n", Silent: true},
 			{Name: "silent-ctor-error-wrapped", File: "bfe_basic/condition/build.go", Old: "	case \"req_host_in\":\n		matcher, err := NewHostMatcher(node.Args[0].Value)\n		if err != nil {\n			return nil, err\n		}\n", New: "	case \"req_host_in\":\n		pattern := node.Args[0].Value\n		matcher, err := NewHostMatcher(pattern)\n		if err != nil {\n			return nil, fmt.Errorf(\"req_host_in: %s\", err)\n		}\n", Silent: true},
 		},
 	})
@@ -262,6 +267,64 @@ func runC17(c *core.Ctx) {
 		if len(succRets) == 0 {
 			problems = append(problems, "the arm has no success return")
 		}
+		// one use of node.Args[k] (k < 0: the index is not a constant)
+		checkIndex := func(x *ssa.IndexAddr, k int) {
+			if k < 0 {
+				problems = append(problems, "non-constant index into node.Args")
+				return
+			}
+			if !hasProto || k >= len(kinds) {
+				problems = append(problems, fmt.Sprintf("uses node.Args[%d] but the prototype declares %d argument(s): index out of range at build time", k, len(kinds)))
+				return
+			}
+			for _, use := range c17ArgUses(x) {
+				switch {
+				case use == "ToBool" && kinds[k] != "BOOL":
+					problems = append(problems, fmt.Sprintf("node.Args[%d].ToBool() but the prototype declares %s (ToBool yields false for every non-BOOL literal)", k, kinds[k]))
+				case use == "Value" && kinds[k] != "STRING":
+					problems = append(problems, fmt.Sprintf("node.Args[%d].Value used as a string but the prototype declares %s", k, kinds[k]))
+				}
+			}
+		}
+		// helperUses: a private helper of the package that is handed the node indexes node.Args on the
+		// arm's behalf (`compileRegexpArg(node, 0)`); its index is a constant or a parameter bound to a
+		// constant at this call site.
+		var helperUses func(call *ssa.Call, bind cxBind, depth int)
+		helperUses = func(call *ssa.Call, bind cxBind, depth int) {
+			h := call.Call.StaticCallee()
+			if h == nil || h.Blocks == nil || core.FuncPkgRel(h) != condPkg || depth > 2 {
+				return
+			}
+			if o := h.Object(); o != nil && o.Exported() {
+				return // constructors and other API take values, not the node
+			}
+			inner := bind.enter(h, &call.Call)
+			passesNode := false
+			for _, a := range inner {
+				if a == ssa.Value(bp.Params[0]) {
+					passesNode = true
+				}
+			}
+			if !passesNode {
+				return
+			}
+			core.Instrs(h, func(in ssa.Instruction) {
+				switch y := in.(type) {
+				case *ssa.IndexAddr:
+					base, ok := cxLoadField(y.X, "Args")
+					if !ok || inner.resolve(base) != ssa.Value(bp.Params[0]) {
+						return
+					}
+					if k, isK := cxConstInt(inner.resolve(y.Index)); isK {
+						checkIndex(y, int(k))
+					} else {
+						checkIndex(y, -1)
+					}
+				case *ssa.Call:
+					helperUses(y, inner, depth+1)
+				}
+			})
+		}
 		for _, b := range blocks {
 			for _, in := range b.Instrs {
 				switch x := in.(type) {
@@ -269,31 +332,24 @@ func runC17(c *core.Ctx) {
 					if core.Render(x.X) != node+".Args" {
 						continue
 					}
-					k64, isConst := cxConstInt(x.Index)
-					if !isConst {
-						problems = append(problems, "non-constant index into node.Args")
-						continue
-					}
-					k := int(k64)
-					if !hasProto || k >= len(kinds) {
-						problems = append(problems, fmt.Sprintf("uses node.Args[%d] but the prototype declares %d argument(s): index out of range at build time", k, len(kinds)))
-						continue
-					}
-					for _, use := range c17ArgUses(x) {
-						switch {
-						case use == "ToBool" && kinds[k] != "BOOL":
-							problems = append(problems, fmt.Sprintf("node.Args[%d].ToBool() but the prototype declares %s (ToBool yields false for every non-BOOL literal)", k, kinds[k]))
-						case use == "Value" && kinds[k] != "STRING":
-							problems = append(problems, fmt.Sprintf("node.Args[%d].Value used as a string but the prototype declares %s", k, kinds[k]))
-						}
+					if k64, isConst := cxConstInt(x.Index); isConst {
+						checkIndex(x, int(k64))
+					} else {
+						checkIndex(x, -1)
 					}
 				case *ssa.Call:
+					helperUses(x, cxBind{}, 0)
 					sig := x.Call.Signature()
 					if sig == nil || sig.Results().Len() == 0 || !cxIsErrorType(sig.Results().At(sig.Results().Len()-1).Type()) {
 						continue
 					}
 					callee := core.CalleeKey(&x.Call)
 					if callee == "fmt.Errorf" || strings.HasPrefix(callee, "errors.") {
+						continue
+					}
+					// printing / logging through a library function whose results are not used at all
+					// (fmt.Fprintf, log.Output) builds nothing: its error is not a build error
+					if sc := x.Call.StaticCallee(); sc != nil && core.FuncPkgRel(sc) == "" && (x.Referrers() == nil || len(*x.Referrers()) == 0) {
 						continue
 					}
 					var errV ssa.Value
@@ -314,7 +370,7 @@ func runC17(c *core.Ctx) {
 						if !x.Block().Dominates(r.Block()) {
 							continue
 						}
-						if !core.AllEdgesGuarded(r.Block(), func(g core.Guard) bool { return cxErrTest(g, errV) == -1 }) {
+						if !cxAllEdgesFact(r.Block(), func(g core.Guard) bool { return cxErrTest(g, errV) == -1 }) {
 							problems = append(problems, "a success return is reachable without the error of "+callee+" having been tested nil")
 						}
 					}
@@ -324,7 +380,7 @@ func runC17(c *core.Ctx) {
 						if !ok || len(r.Results) != 2 || isNilConst(r.Results[1]) {
 							continue
 						}
-						if core.HasGuard(b2, func(g core.Guard) bool { return cxErrTest(g, errV) == 1 }) {
+						if cxHasFact(b2, func(g core.Guard) bool { return cxErrTest(g, errV) == 1 }) {
 							propagated = true
 						}
 					}
@@ -454,11 +510,32 @@ func c17Gate(c *core.Ctx) {
 				}
 			}
 		}
-		builds := core.Calls(fn, condPkg+".build")
+		// the calls that hand the parsed tree on to the builder (identified by the value they
+		// receive, not by the builder's name)
+		var builds []ssa.CallInstruction
+		var node ssa.Value
+		for _, call := range core.Calls(fn, condParse+".Parse") {
+			if v, ok := call.(*ssa.Call); ok && v.Referrers() != nil {
+				for _, r := range *v.Referrers() {
+					if ex, ok := r.(*ssa.Extract); ok && ex.Index == 0 {
+						node = ex
+					}
+				}
+			}
+		}
+		if node != nil && node.Referrers() != nil {
+			for _, r := range *node.Referrers() {
+				if ci, ok := r.(ssa.CallInstruction); ok {
+					if h := ci.Common().StaticCallee(); h != nil && core.FuncPkgRel(h) == condPkg {
+						builds = append(builds, ci)
+					}
+				}
+			}
+		}
 		okErr, okId := len(builds) > 0 && perr != nil, len(builds) > 0 && idents != nil
 		for _, b := range builds {
 			blk := b.(ssa.Instruction).Block()
-			if perr == nil || !core.AllEdgesGuarded(blk, func(g core.Guard) bool { return cxErrTest(g, perr) == -1 }) {
+			if perr == nil || !cxAllEdgesFact(blk, func(g core.Guard) bool { return cxErrTest(g, perr) == -1 }) {
 				okErr = false
 			}
 			if idents == nil || cxLenLowerOrZero(blk, idents) != 0 {
@@ -496,7 +573,7 @@ func c17Gate(c *core.Ctx) {
 				continue
 			}
 			n++
-			if perr == nil || !core.AllEdgesGuarded(r.Block(), func(g core.Guard) bool { return cxErrTest(g, perr) == -1 }) {
+			if perr == nil || !cxAllEdgesFact(r.Block(), func(g core.Guard) bool { return cxErrTest(g, perr) == -1 }) {
 				ok = false
 			}
 		}
@@ -569,13 +646,18 @@ func c17Gate(c *core.Ctx) {
 		}
 		c.Check("gate", "primitiveCheck:descend", fn.Pos(), len(miss) == 0, "primitiveCheck does not return true (descend into children) for *"+strings.Join(miss, ", *")+": primitives nested below such a node are never prototype-checked")
 		calls := core.Calls(fn, condParse+".prototypeCheck")
-		ok := len(calls) == 1
+		ok := len(calls) >= 1
 		detail := fmt.Sprintf("%d calls of prototypeCheck", len(calls))
-		if ok {
-			call := calls[0].(*ssa.Call)
+		for _, ci := range calls {
+			call, isCall := ci.(*ssa.Call)
+			if !isCall {
+				ok = false
+				detail = "prototypeCheck is called with go/defer: its result is lost"
+				continue
+			}
 			_, ts := enclosingArm(call.Block())
-			ok = len(ts) == 1 && strings.HasSuffix(core.TypeStr(ts[0]), "CallExpr")
-			if !ok {
+			if !(len(ts) == 1 && strings.HasSuffix(core.TypeStr(ts[0]), "CallExpr")) {
+				ok = false
 				detail = "prototypeCheck is not called in the *CallExpr arm"
 			}
 			// err != nil => addError on every path
@@ -665,10 +747,10 @@ func c17Gate(c *core.Ctx) {
 				continue
 			}
 			nSucc++
-			if okV == nil || !core.HasGuard(r.Block(), func(g core.Guard) bool { return g.Cond == okV && g.Pol }) {
+			if okV == nil || !cxHasFact(r.Block(), func(g core.Guard) bool { return g.Cond == okV && g.Pol }) {
 				okName = false
 			}
-			if !core.HasGuard(r.Block(), func(g core.Guard) bool { return isCount(g) == 1 }) {
+			if !cxHasFact(r.Block(), func(g core.Guard) bool { return isCount(g) == 1 }) {
 				okCount = false
 			}
 		}
@@ -899,7 +981,7 @@ func cxLenBoundFromGuard(g core.Guard, match func(ssa.Value) bool) (lower int, z
 // guards that hold at b.
 func cxLenLowerBoundAt(b *ssa.BasicBlock, path string) int {
 	best := 0
-	for _, g := range core.GuardsAt(b) {
+	for _, g := range cxFactsAt(b) {
 		if lo, _ := cxLenBoundFromGuard(g, func(v ssa.Value) bool { return core.Render(v) == path }); lo > best {
 			best = lo
 		}
@@ -909,7 +991,7 @@ func cxLenLowerBoundAt(b *ssa.BasicBlock, path string) int {
 
 // cxLenIsZeroGuard: every way into b establishes len(<path>) == 0.
 func cxLenIsZeroGuard(b *ssa.BasicBlock, path string) bool {
-	return core.AllEdgesGuarded(b, func(g core.Guard) bool {
+	return cxAllEdgesFact(b, func(g core.Guard) bool {
 		_, z := cxLenBoundFromGuard(g, func(v ssa.Value) bool { return core.Render(v) == path })
 		return z
 	})
@@ -917,7 +999,7 @@ func cxLenIsZeroGuard(b *ssa.BasicBlock, path string) bool {
 
 // cxLenLowerOrZero returns 0 when len(v) == 0 is established at b, else 1.
 func cxLenLowerOrZero(b *ssa.BasicBlock, v ssa.Value) int {
-	if core.AllEdgesGuarded(b, func(g core.Guard) bool {
+	if cxAllEdgesFact(b, func(g core.Guard) bool {
 		_, z := cxLenBoundFromGuard(g, func(x ssa.Value) bool { return x == v })
 		return z
 	}) {
@@ -935,10 +1017,12 @@ func c17Scanner(c *core.Ctx) {
 		return
 	}
 	c.Analysed(core.FuncKey(scan))
-	consumes := func(in ssa.Instruction) bool {
+	// a call of s.next(), of a helper that calls it on all of its paths, or of scanIdentifier /
+	// scanNumber (reviewed: entered only on a letter / digit, which they consume)
+	consumes := core.LiftMust(func(in ssa.Instruction) bool {
 		ci, ok := in.(ssa.CallInstruction)
 		return ok && core.CallIs(ci.Common(), condParse+".Scanner.next", condParse+".Scanner.scanIdentifier", condParse+".Scanner.scanNumber")
-	}
+	}, 3)
 	bad := core.MustPass(scan, nil, consumes)
 	c.Check("scan-progress", "Scanner.Scan", scan.Pos(), bad == nil, "a path through Scanner.Scan returns a token without consuming input (no next/scanIdentifier/scanNumber call): the parser's token loop would not terminate")
 	c.Min("scan-progress", 1)
@@ -1165,39 +1249,75 @@ func c17HashBound(c *core.Ctx) {
 	if fn := c.P.Func(condPkg, "parserHashSectionConf"); fn == nil {
 		c.Missing(condPkg + ".parserHashSectionConf")
 	} else {
-		c.Analysed(core.FuncKey(fn))
-		// every success return is reached only through the loop whose body rejects number < 0 and number >= size
-		var upper, lower bool
-		for _, b := range fn.Blocks {
-			ifi, isIf := b.Instrs[len(b.Instrs)-1].(*ssa.If)
-			if !isIf {
-				continue
+		// Every bucket number parsed (strconv.Atoi, possibly inside a private helper) must be
+		// established to lie in [0, HashMatcherBucketSize) on every path from the place it is
+		// parsed to a success return: a path rule over branch edges and the facts they imply,
+		// so the spelling of the test (a || b, named booleans, inverted branches, mirrored
+		// operands, switch, early continue) does not matter.
+		isSuccess := func(in ssa.Instruction) bool {
+			r, ok := in.(*ssa.Return)
+			if !ok {
+				return false
 			}
-			bo, isB := ifi.Cond.(*ssa.BinOp)
-			if !isB {
-				continue
-			}
-			k, isK := cxConstInt(bo.Y)
-			if !isK || !strings.Contains(core.Render(bo.X), "strconv.Atoi") {
-				continue
-			}
-			rejectsTrue := core.ReachAvoiding(fn, b.Succs[0].Instrs[0], nil, func(in ssa.Instruction) bool {
-				r, ok := in.(*ssa.Return)
-				return ok && isNilConst(core.RetVals(r)[2])
-			}) == nil
-			if bo.Op == token.GEQ && k == size && rejectsTrue {
-				upper = true
-			}
-			if bo.Op == token.GTR && k == size-1 && rejectsTrue {
-				upper = true
-			}
-			if bo.Op == token.LSS && k == 0 {
-				// `a || b`: the true edge goes to the reject block directly
-				lower = true
-			}
+			rv := core.RetVals(r)
+			return len(rv) > 0 && isNilConst(rv[len(rv)-1])
 		}
-		c.Check("hash-bound", "parserHashSectionConf:upper", fn.Pos(), upper, fmt.Sprintf("parserHashSectionConf must reject bucket numbers >= HashMatcherBucketSize (%d) before they are used as indexes into the bucket table", size))
-		c.Check("hash-bound", "parserHashSectionConf:lower", fn.Pos(), lower, "parserHashSectionConf must reject negative bucket numbers")
+		isK := func(k int64) func(ssa.Value) bool {
+			return func(v ssa.Value) bool { n, ok := cxConstInt(v); return ok && n == k }
+		}
+		var check func(f *ssa.Function, depth int) (nSrc int, upperBad, lowerBad bool)
+		check = func(f *ssa.Function, depth int) (nSrc int, upperBad, lowerBad bool) {
+			c.Analysed(core.FuncKey(f))
+			core.Instrs(f, func(in ssa.Instruction) {
+				call, ok := in.(*ssa.Call)
+				if !ok || call.Referrers() == nil {
+					return
+				}
+				isSrc := core.CallIs(&call.Call, "strconv.Atoi")
+				if !isSrc && depth < 2 {
+					// a private helper that parses a number and hands it back unchecked or checked
+					if h := call.Call.StaticCallee(); h != nil && h.Blocks != nil && core.FuncPkgRel(h) == condPkg && h != fn && h.Signature.Results().Len() >= 1 {
+						if b, isB := h.Signature.Results().At(0).Type().Underlying().(*types.Basic); isB && b.Info()&types.IsInteger != 0 {
+							if n, ub, lb := check(h, depth+1); n > 0 {
+								if !ub && !lb {
+									nSrc += n // parsed and checked inside the helper
+									return
+								}
+								isSrc = true
+							}
+						}
+					}
+				}
+				if !isSrc {
+					return
+				}
+				var num ssa.Value
+				for _, r := range *call.Referrers() {
+					if ex, ok := r.(*ssa.Extract); ok && ex.Index == 0 {
+						num = ex
+					}
+				}
+				if num == nil {
+					return
+				}
+				nSrc++
+				isNum := func(v ssa.Value) bool { return core.StripConv(v) == num }
+				if cxReachAvoidingEdges(in, func(g core.Guard) bool {
+					return g.CmpIs(token.LSS, isNum, isK(size)) || g.CmpIs(token.LEQ, isNum, isK(size-1))
+				}, isSuccess) != nil {
+					upperBad = true
+				}
+				if cxReachAvoidingEdges(in, func(g core.Guard) bool {
+					return g.CmpIs(token.GEQ, isNum, isK(0)) || g.CmpIs(token.GTR, isNum, isK(-1))
+				}, isSuccess) != nil {
+					lowerBad = true
+				}
+			})
+			return
+		}
+		nSrc, upperBad, lowerBad := check(fn, 0)
+		c.Check("hash-bound", "parserHashSectionConf:upper", fn.Pos(), nSrc > 0 && !upperBad, fmt.Sprintf("parserHashSectionConf must reject bucket numbers >= HashMatcherBucketSize (%d) before they are used as indexes into the bucket table (%d parsed number(s) found; a success return is reachable from one of them without a test that establishes number < %d)", size, nSrc, size))
+		c.Check("hash-bound", "parserHashSectionConf:lower", fn.Pos(), nSrc > 0 && !lowerBad, "parserHashSectionConf must reject negative bucket numbers (a success return is reachable from a parsed number without a test that establishes number >= 0)")
 	}
 	if fn := c.P.Func(condPkg, "setHashBuckets"); fn == nil {
 		c.Missing(condPkg + ".setHashBuckets")
@@ -1464,9 +1584,10 @@ func c17ScannerLoops(c *core.Ctx) {
 			return
 		}
 		if k, isK := cxConstInt(st.Val); isK && k == -1 {
-			okEOF = core.HasGuard(st.Block(), func(g core.Guard) bool {
-				bo, ok := g.Cond.(*ssa.BinOp)
-				return ok && !g.Pol && bo.Op == token.LSS && strings.HasSuffix(core.Render(bo.X), ".rdOffset") && strings.HasPrefix(core.Render(bo.Y), "builtin:len(")
+			okEOF = cxHasFact(st.Block(), func(g core.Guard) bool {
+				return g.CmpIs(token.GEQ,
+					func(v ssa.Value) bool { _, ok := cxLoadField(v, "rdOffset"); return ok },
+					func(v ssa.Value) bool { return strings.HasPrefix(core.Render(v), "builtin:len(") })
 			})
 		}
 	})
@@ -1485,25 +1606,34 @@ func c17ScannerLoops(c *core.Ctx) {
 	nLoops := 0
 	for _, fn := range fns {
 		ord := 0
+		loopOf := map[*ssa.BasicBlock]*core.Loop{}
+		for _, l := range core.Loops(fn) {
+			loopOf[l.Header] = l
+		}
 		for _, h := range fn.Blocks {
-			isHeader := false
+			l := loopOf[h]
+			if l == nil {
+				continue
+			}
 			var outside []*ssa.BasicBlock
 			for _, p := range h.Preds {
-				if h.Dominates(p) {
-					isHeader = true
-				} else {
+				if !l.Body[p] {
 					outside = append(outside, p)
 				}
 			}
-			if !isHeader || strings.HasPrefix(h.Comment, "rangeindex") || strings.HasPrefix(h.Comment, "rangeiter") {
-				continue
+			kind, _ := core.LoopKind(l)
+			if kind == "range-slice" || kind == "range-map" {
+				continue // bounded by the length of the operand
 			}
 			ord++
 			nLoops++
 			c.Analysed(core.FuncKey(fn))
 			var problems []string
+			// a loop over an induction variable with a constant step against a bound that the loop does
+			// not modify (`for n > 0 { …; n-- }`, an index loop over a slice) terminates whatever the input is
+			bounded := c17CounterBounded(h) || kind == "counted"
 			// (1) every cycle consumes input
-			if again := core.ReachAvoiding(fn, h.Instrs[0], isNext, func(in ssa.Instruction) bool { return in == h.Instrs[0] }); again != nil {
+			if again := core.ReachAvoiding(fn, h.Instrs[0], core.LiftMust(isNext, 2), func(in ssa.Instruction) bool { return in == h.Instrs[0] }); again != nil && !bounded {
 				problems = append(problems, "a cycle of the loop does not call s.next(): no input is consumed")
 			}
 			// (2) at end of input the loop is left
@@ -1527,8 +1657,8 @@ func c17ScannerLoops(c *core.Ctx) {
 				}
 			}
 			leaves := true
-			if c17CounterBounded(h) {
-				bindSets = nil // `for n > 0 { …; n-- }`: bounded whatever the input is
+			if bounded {
+				bindSets = nil
 			}
 			for _, binds := range bindSets {
 				for _, p := range outside {
